@@ -276,7 +276,7 @@ def check_custom(t, m, names, nodes, known, ctx):
     """Custom functions, options, indent, graph/name; to_dotfile."""
     exps = exporters()
     idm = tree.IdMap(nodes)
-    namef = lambda nd: 'N:"%s"\\%d' % (nd.name, idm(nd))  # noqa - needs escaping, injective
+    namef = lambda nd: ('N:"%s"\\%d' % (nd.name, idm(nd))) if idm(nd) % 4 != 3 else 1000 + idm(nd)  # noqa - escaping; sometimes an int
     # None means "no attribute list"; an empty string is a (legal, empty) attribute list and must appear verbatim
     nattr = lambda nd: (None if idm(nd) % 2 else 'shape=box, label="%s"' % idm(nd)) if idm(nd) % 3 else ""  # noqa
     eattr = lambda a, b: (None if idm(b) % 2 else "label=%d_%d" % (idm(a), idm(b))) if idm(b) % 3 else ""  # noqa
@@ -290,7 +290,7 @@ def check_custom(t, m, names, nodes, known, ctx):
                 lines = list(e)
                 t.c["custom_function_exports"] += 1
                 judge_export(t, m, names, which, lines, start, (), (), None, dict(ctx, custom=True, indent=indent), known,
-                             id_of=lambda v: 'N:"%s"\\%d' % (names[v], v),
+                             id_of=lambda v: ('N:"%s"\\%d' % (names[v], v)) if v % 4 != 3 else str(1000 + v),
                              opts={"indent": indent, "options": options, "graph": "graph", "name": "g1",
                                    "nodeattr": lambda v: (None if v % 2 else 'shape=box, label="%s"' % v) if v % 3 else "",
                                    "edgeattr": lambda a, b: (None if b % 2 else "label=%d_%d" % (a, b)) if b % 3 else "",
